@@ -96,7 +96,20 @@ def restore_golden():
         shutil.copy(os.path.join(LEAN, "golden", fn), os.path.join(LEAN, "BB", "Gen", fn))
 
 
-def prepare(prop):
+def local_imports(module, seen=None):
+    """the module and every BB.* module it imports, transitively (for the independent re-check)"""
+    seen = set() if seen is None else seen
+    if module in seen:
+        return seen
+    seen.add(module)
+    path = os.path.join(LEAN, *module.split(".")) + ".lean"
+    if os.path.exists(path):
+        for m in re.findall(r"^import\s+(BB\.\S+)", open(path).read(), flags=re.M):
+            local_imports(m, seen)
+    return seen
+
+
+def prepare(prop, tier="quick"):
     """regenerate kernels, build, audit.  Returns info dict; the model driver is started while
     the lock is held so that it loads the object files this build produced."""
     import py2lean
@@ -138,6 +151,14 @@ def prepare(prop):
                 info["broken"].append({"what": "theorem", "name": n, "detail": f"depends on axioms {ax}"})
         for b in bad:
             info["broken"].append({"what": "hygiene", "detail": b})
+        if tier == "thorough":
+            # independent re-check of the compiled proofs (property module and every local module under it)
+            mods = sorted(local_imports(prop.LEAN_MODULE))
+            t1 = time.time()
+            rc, out = sh(["lake", "env", "leanchecker"] + mods, cwd=LEAN, timeout=3600)
+            info["leanchecker"] = {"modules": mods, "exit": rc, "seconds": round(time.time() - t1, 1)}
+            if rc != 0:
+                info["broken"].append({"what": "leanchecker", "detail": out[-600:]})
         from core import Model
         model = Model()
         model.run([])  # wait until the driver has loaded
@@ -223,7 +244,7 @@ def write_replay(pid, seed, tier, payload):
 def run_check(pid, tier, seed):
     t0 = time.time()
     prop = importlib.import_module("props." + pid.lower())
-    info, model = prepare(prop)
+    info, model = prepare(prop, tier)
     if model is None:
         print("INFRASTRUCTURE: " + info.get("fatal", "?"))
         return 2
@@ -345,6 +366,7 @@ def write_evidence(pid, tier, seed, prop, info, stats, samples, wall, nviol):
             "trusted_base": TRUSTED_BASE + getattr(prop, "TRUSTED_EXTRA", []),
             "theorems": obligations,
             "kernel_mode": info["kernel_mode"],
+            "leanchecker": info.get("leanchecker", "thorough tier only"),
             "translator": info.get("translator"),
             "broken_obligations": info["broken"],
             "evaluations": stats["cases"],
